@@ -89,6 +89,10 @@ type stats struct {
 	Recreates                       int
 	MaxDeployments                  int
 	MultiCreateBatches              int
+	MultiCreateSizes                map[int]int
+	HostileHistories                int
+	DeploymentsListed               int
+	GatewaysWithNeedle              int
 	FilteredGCEvents                int
 }
 
@@ -380,7 +384,7 @@ func (w *world) genOp(r *rng.R, prof profile) (op, bool) {
 				return op{kind: "dc", cls: n}, true
 			}
 		}
-		k := gwKeys[r.Intn(prof.nKeys)]
+		k := prof.key(r.Intn(prof.nKeys))
 		g := w.getGw(k)
 		if g == nil {
 			cls := w.gcName
@@ -411,11 +415,19 @@ func (w *world) genOp(r *rng.R, prof profile) (op, bool) {
 }
 
 type profile struct {
+	keys        []types.NamespacedName // nil = gwKeys
 	nKeys       int
 	gcOps       int // % of ops on GatewayClasses
 	cfgGCOps    int // % of those allowed to hit the configured class
 	classChange int // % of ops on an existing Gateway that change its class
 	startGC     int // % of histories whose cluster has the configured class at start-up
+}
+
+func (p profile) key(i int) types.NamespacedName {
+	if p.keys != nil {
+		return p.keys[i]
+	}
+	return gwKeys[i]
 }
 
 func (w *world) crd() *metav1.PartialObjectMetadata {
@@ -450,6 +462,13 @@ func runHistory(r *rng.R, gcName string, prof profile, nBatches int, fixed [][]o
 		obs, snap, newKeys, nd := w.dump(prevProv, pan)
 		if len(newKeys) > 1 {
 			st.MultiCreateBatches++
+			st.MultiCreateSizes[len(newKeys)]++
+		}
+		st.DeploymentsListed += nd
+		for _, k := range newKeys {
+			if strings.Contains(k, lockNeedle) {
+				st.GatewaysWithNeedle++
+			}
 		}
 		if nd > st.MaxDeployments {
 			st.MaxDeployments = nd
@@ -484,8 +503,8 @@ func runHistory(r *rng.R, gcName string, prof profile, nBatches int, fixed [][]o
 				if r.Chance(1, 3) {
 					cls = "other"
 				}
-				applyQuiet(op{kind: "cg", key: gwKeys[i], cls: cls})
-				everClass[gwKeys[i].String()] = cls
+				applyQuiet(op{kind: "cg", key: prof.key(i), cls: cls})
+				everClass[prof.key(i).String()] = cls
 			}
 		}
 	} else if len(fixed) > 0 {
@@ -543,8 +562,8 @@ func runHistory(r *rng.R, gcName string, prof profile, nBatches int, fixed [][]o
 		alive = runBatch(batch, desc)
 	}
 
-	fmt.Fprintf(out, "M gc=%s tmpl=%s hist=%s\tO %s\tJ gc=%s snaps=%s\tH %s\n",
-		gcName, join(tmpl, "|"), join(hist, ";"), join(obsL, ";"), gcName, join(snapL, ";"), join(opsL, ";"))
+	fmt.Fprintf(out, "M gc=%s tmpl=%s hist=%s\tO %s\tJ gc=%s tmpl=%s snaps=%s\tH %s\n",
+		gcName, join(tmpl, "|"), join(hist, ";"), join(obsL, ";"), gcName, join(tmpl, "|"), join(snapL, ";"), join(opsL, ";"))
 	out.Flush()
 	return false
 }
@@ -604,13 +623,14 @@ func Run(args []string) int {
 	maxBatches := fs.Int("maxbatches", 12, "max batches per history")
 	replay := fs.String("ops", "", "replay: gc name '=' batches of ops (first = start-up cluster), e.g. nginx=cc:nginx;cg:ns1/gw-a:nginx;ug:ns1/gw-a:other")
 	opsFile := fs.String("opsfile", "", "file with one -ops history per line")
+	hostile := fs.Bool("hostile", false, "hostile-name family: Gateway namespaces/names that contain the arg names of the manifest (leader-election-lock-name, gateway, …), prefixes/suffixes of each other; deterministic single/pair histories, then -n random histories over such keys; also emits the K lines (DNS-1123 validity by apimachinery)")
 	exhaustive := fs.Int("exhaustive", 0, "enumerate ALL op histories of this length over 2 Gateways x {configured, other} and 2 GatewayClasses (every op its own batch, and all ops after start-up in one batch)")
 	if err := fs.Parse(args); err != nil {
 		return 2
 	}
 	out := bufio.NewWriter(os.Stdout)
 	defer out.Flush()
-	st := &stats{OpKinds: map[string]int{}, BatchSizes: map[int]int{}, Panics: map[string]int{}}
+	st := &stats{OpKinds: map[string]int{}, BatchSizes: map[int]int{}, Panics: map[string]int{}, MultiCreateSizes: map[int]int{}}
 
 	tmpl, err := templateArgs()
 	if err != nil {
@@ -635,7 +655,9 @@ func Run(args []string) int {
 			}
 		}
 	}
-	if *exhaustive > 0 {
+	if *hostile {
+		runHostile(rng.New(*seed), *n, *maxBatches, st, tmpl, out)
+	} else if *exhaustive > 0 {
 		enumerate(*exhaustive, st, tmpl, out)
 	} else if len(replays) > 0 {
 		// one output line per replayed history, in order ("X …" when an op was not applicable)
